@@ -13,11 +13,11 @@ pub fn run<C: Suite>(ctx: &mut Ctx) {
     let slow = C::NAME == "ed448";
     let max_n: u16 = match (ctx.quick(), slow) {
         (true, true) => 4,
-        (true, false) => 5,
+        (true, false) => 6,
         (false, true) => 6,
         (false, false) => 9,
     };
-    let reps = ctx.scale(1, 3);
+    let reps = ctx.scale(2, 3);
     for (n, t) in shapes(max_n) {
         for kind in ID_KINDS {
             for rep in 0..reps {
